@@ -203,6 +203,9 @@ func (g *opw) transitionSegment() {
 		g.emit(g.desall(gen.Range(rt, "nde", 0, 2)))
 	}
 	g.noise(1, 10)
+	if gen.Chance(rt, "reqWS", 1, 2) { // a request while the hand-over is being signed (same block, before the shares)
+		g.emit(op{K: "req", A: gen.Uniform(rt, "u", nReq)})
+	}
 	switch gen.Pick(rt, "signv", 12, 2, 2, 2) {
 	case 0:
 		g.emit(op{K: "sign", Mask: 0xff})
